@@ -371,7 +371,11 @@ pub fn check(case: &Case, idx: u64, acc: &mut Acc) {
         }
         Case::CaseNames => {
             acc.nontrivial();
-            let sets: [(&[&str], &[&[&str]]); 3] = [
+            let sets: [(&[&str], &[&[&str]]); 6] = [
+                // names that differ only by white space at their ends (blank, tab, no-break space, ideographic space)
+                (&["a", "a ", "\ta"], &[&["a", "a ", "\ta"], &["\ta", "a"], &["a "], &[" a", "a"], &["a ", "a", "a\u{a0}"]]),
+                (&[" x", "y\u{3000}"], &[&[" x", "y\u{3000}"], &["x", "y"], &["y\u{3000}", " x"], &[" x "]]),
+                (&["r 0", "r0", ""], &[&["r 0", "r0", ""], &["", "r0"], &["r0", "r 0"], &[" "]]),
                 (&["k", "K"], &[&["K", "k"], &["k", "K"], &["K"], &["k"], &["K", "K2", "k"]]),
                 (&["fx_eurusd", "r0"], &[&["fx_EURUSD", "r0"], &["FX_EURUSD", "R0"], &["r0", "fx_eurusd"], &["fx_eurusd", "R0"]]),
                 (&["Ab", "aB", "ab"], &[&["ab", "Ab", "aB"], &["AB", "ab"], &["aB", "Ab", "ab"], &["ab", "aB", "Ab"]]),
